@@ -206,8 +206,8 @@ SHAPES = {
     "C05": (deepen, branchy_condaux, exit_bids),
     "C06": (deepen, branchy_condaux, shared_original, later_done),
     "C07": (deepen, shared_original, branchy_condaux, later_done, exit_bids),
-    "C08": (shared_original, deepen),
-    "C09": (shared_original, later_done, deepen),
+    "C08": (shared_original, deepen, exit_bids),
+    "C09": (shared_original, later_done, deepen, exit_bids, shared_original),
     "C10": (branchy_condaux, later_done, branchy_condaux),
     "C11": (deepen, later_done),
 }
